@@ -673,3 +673,7 @@ B2("b48", ["C12", "C09", "C08"], [
    (VI, "                and self.iteration % self.checkpoint_frequency == 0\n            ):\n                self.save(self.iteration)", "                and self.iteration % every == 0\n            ):\n                self.save(self.iteration)", None),
    (VI, "            if conv < self.conv_threshold:\n                logger.info(\n                    f\"Convergence threshold reached at iteration {self.iteration}\"", "            if conv < threshold:\n                logger.info(\n                    f\"Convergence threshold reached at iteration {self.iteration}\"", None)],
    "loop invariants (frequency, threshold) read once before the loop")
+B2("b49", ["C09", "C08", "C12", "C10"], [
+   (VI, "        for _ in range(max_iterations):\n            self.iteration += 1\n            new_values, conv = self._iteration_step()\n            self.values = new_values\n\n            logger.info(\n                f\"Iteration {self.iteration}: {self._convergence_desc}",
+        "        self._sweeps_timed = getattr(self, \"_sweeps_timed\", 0)\n        for _ in range(max_iterations):\n            self.iteration += 1\n            new_values, conv = self._iteration_step()\n            self.values = new_values\n            self._sweeps_timed = self._sweeps_timed + 1\n\n            logger.info(\n                f\"Iteration {self.iteration}: {self._convergence_desc}", None)],
+   "a bookkeeping counter carried between sweeps that never influences results, stopping or saving (not checkpointed on purpose)")
